@@ -811,7 +811,7 @@ def run(ctx):
 		ctx.count('shipped-file')
 
 	# generated documents
-	for _ in range(ctx.scale(300, 10000)):
+	for _ in range(ctx.scale(1500, 10000)):
 		document = gen_document(rng, ctx.thorough)
 		expected = {'descriptors': [expected_descriptor(declaration) for declaration in document['declarations']], 'imports': document['imports']}
 		ctx.count('documents')
